@@ -20,6 +20,12 @@ LABEL_MODES = ["half", "few", "most", "allpos", "allneg"]
 
 def slices(rng, k, n):
     """k slices of n samples, pairwise different (score mode, label mode)."""
+    if rng.random() < 0.4:
+        # runs of equal scores crossing the slice boundary of the flattened (sorted) multi-slice tensor
+        kind = rng.choice(["chained", "chained", "const", "clip"])
+        xs = C.gen_chained_rows(rng, k, n, C.DEN, kind)
+        ys = [C.gen_labels(rng, n, mode=rng.choice(["half", "half", "most", "few", "allpos"])) for _ in range(k)]
+        return xs, ys, [("chain-" + kind, "any")] * k
     sm = rng.sample(SCORE_MODES, min(k, len(SCORE_MODES)))
     lm = [rng.choice(LABEL_MODES) for _ in range(k)]
     if k >= 2 and lm[0] == lm[1]:
